@@ -74,7 +74,7 @@ def gen_sequence(rng, root):
         if rng.random() < 0.2:
             # the rest of the server's registered surface: rename, ranged semantic tokens, formatting, didSave,
             # didChangeConfiguration, didChangeWatchedFiles (files that change or vanish on disk)
-            x = rng.randrange(7)
+            x = rng.randrange(8)
             d = rng.choice(docs)
             if x == 0:
                 rid += 1
@@ -92,6 +92,11 @@ def gen_sequence(rng, root):
                 seq.append(("xnotif", d, "textDocument/didSave", {"textDocument": {"uri": d.uri}}))
             elif x == 4:
                 seq.append(("xnotif", d, "workspace/didChangeConfiguration", {"settings": rng.choice([None, {}, {"glas": {"x": [1, "a"]}}, 7])}))
+            elif x == 5:
+                # notifications the server registers no handler for: editors send them (willSave, a cancelled
+                # progress, workspace folders, file operations, traces) and they must not end the session
+                m, params = rng.choice(UNHANDLED_NOTIFICATIONS)
+                seq.append(("xnotif", d, m, json.loads(json.dumps(params).replace("%URI%", d.uri))))
             else:
                 events = []
                 for _e in range(rng.randrange(1, 4)):
@@ -569,6 +574,19 @@ def describe(op):
         return "didChangeWatchedFiles " + "; ".join(f"{act} {uri.split('/')[-1] or uri} type={typ}" for (act, uri, typ, _) in op[2])
     return f"{op[2]} {op[1].key} ({op[3]},{op[4]}) id={op[5]}"
 
+
+UNHANDLED_NOTIFICATIONS = [
+    ("textDocument/willSave", {"textDocument": {"uri": "%URI%"}, "reason": 1}),
+    ("window/workDoneProgress/cancel", {"token": "glas/loading"}),
+    ("workspace/didChangeWorkspaceFolders", {"event": {"added": [], "removed": []}}),
+    ("workspace/didCreateFiles", {"files": [{"uri": "%URI%"}]}),
+    ("workspace/didRenameFiles", {"files": [{"oldUri": "%URI%", "newUri": "%URI%.bak"}]}),
+    ("workspace/didDeleteFiles", {"files": [{"uri": "%URI%"}]}),
+    ("notebookDocument/didOpen", {"notebookDocument": {"uri": "%URI%", "notebookType": "x", "version": 1, "cells": []}, "cellTextDocuments": []}),
+    ("$/setTrace", {"value": "verbose"}),
+    ("$/cancelRequest", {"id": 99999}),
+    ("glas/noSuchNotification", None),
+]
 
 PROOF_MODULES = {"C15": ["Glas.Props.C15"]}
 
